@@ -28,11 +28,13 @@ SchemaA == SchemaF(<<
     <<"ct", CtS>>,
     <<"citems", With(ListF(ItemC), [default |-> ListV(<<D1(<<"w">>, IntV(1)), D1(<<"w">>, IntV(1))>>)])>> >>)
 
-MCKeyNames == {"ct", "citems", "u", "m", "w", "l2", "ditems", "a", "s", "l", "d", "sub", "x", "y", "deep", "z", "items", "p", "q", "zz"}
+MCKeyNames == {"name", "port", "tags", "opts", "feat", "enabled", "key", "core", "srv", "host", "ct", "citems", "u", "m", "w", "l2", "ditems", "a", "s", "l", "d", "sub", "x", "y", "deep", "z", "items", "p", "q", "zz"}
 MCKeyChars == [k \in MCKeyNames |->
     CASE k = "a" -> <<"a">> [] k = "s" -> <<"s">> [] k = "l" -> <<"l">> [] k = "d" -> <<"d">>
       [] k = "sub" -> <<"s","u","b">> [] k = "x" -> <<"x">> [] k = "y" -> <<"y">>
       [] k = "deep" -> <<"d","e","e","p">> [] k = "z" -> <<"z">> [] k = "items" -> <<"i","t","e","m","s">>
+      [] k = "name" -> <<"n", "a", "m", "e">> [] k = "port" -> <<"p", "o", "r", "t">> [] k = "tags" -> <<"t", "a", "g", "s">> [] k = "opts" -> <<"o", "p", "t", "s">> [] k = "feat" -> <<"f", "e", "a", "t">>
+      [] k = "enabled" -> <<"e", "n", "a", "b", "l", "e", "d">> [] k = "key" -> <<"k", "e", "y">> [] k = "core" -> <<"c", "o", "r", "e">> [] k = "srv" -> <<"s", "r", "v">> [] k = "host" -> <<"h", "o", "s", "t">>
       [] k = "ct" -> <<"c","t">> [] k = "citems" -> <<"c","i","t","e","m","s">> [] k = "u" -> <<"u">>
       [] k = "m" -> <<"m">> [] k = "w" -> <<"w">>
       [] k = "l2" -> <<"l","2">> [] k = "ditems" -> <<"d","i","t","e","m","s">>
@@ -106,4 +108,55 @@ MCDictOps ==
          [m |-> "ior", kv |-> << <<s(<<"c">>), s(<<"3">>)>> >>],
          [m |-> "setdefault", k |-> s(<<"k">>), v |-> IntV(5)], [m |-> "setdefault", k |-> s(<<"n">>), v |-> s(<<"x">>)],
          [m |-> "pop", k |-> s(<<"K">>)], [m |-> "clear"]}]
+
+(* ---- instance V: required fields, defaults, field and schema validators, a feature flag (C11) ---- *)
+FeatS == [flagkey |-> "enabled", validators |-> <<"needs_key">>] @@
+         SchemaF(<< <<"enabled", With(BoolF, [default |-> BoolV(FALSE)]) @@ [flag |-> TRUE]>>,
+                    <<"key", With(StringF, [required |-> TRUE])>> >>)
+DeepV == SchemaF(<< <<"z", With(StringF, [required |-> TRUE, default |-> s(<<"z", "z">>)])>> >>)
+CoreS == [validators |-> <<"x_lt_y">>] @@
+         SchemaF(<< <<"x", With(IntF, [required |-> TRUE])>>, <<"y", With(IntF, [default |-> IntV(5)])>>, <<"deep", DeepV>> >>)
+ItemV == [validators |-> <<"host_not_x">>] @@
+         SchemaF(<< <<"host", With(StringF, [required |-> TRUE])>>, <<"port", With(IntF, [default |-> IntV(1)])>> >>)
+SchemaV == [validators |-> <<"always_ok">>] @@ SchemaF(<<
+    <<"name", With(StringF, [required |-> TRUE])>>,
+    <<"port", With(IntF, [default |-> IntV(80), fval |-> "v_even"])>>,
+    <<"tags", With(ListF(StringF), [required |-> TRUE])>>,
+    <<"opts", With(DictF(StringF, IntF), [required |-> TRUE, default |-> DictV(<< <<s(<<"k">>), IntV(1)>> >>)])>>,
+    <<"feat", FeatS>>,
+    <<"core", CoreS>>,
+    <<"srv", ListF(ItemV)>> >>)
+
+TCore(x) == D1(<<"c", "o", "r", "e">>, D1(<<"x">>, x))
+TFull == DictV(<< <<s(<<"n", "a", "m", "e">>), s(<<"a", "p", "p">>)>>, <<s(<<"t", "a", "g", "s">>), ListV(<<s(<<"t", "1">>)>>)>>, <<s(<<"c", "o", "r", "e">>), D1(<<"x">>, IntV(1))>> >>)
+MCSetCandsV ==
+    [pk \in {<< <<>>, "name">>, << <<>>, "port">>, << <<>>, "tags">>, << <<>>, "opts">>, << <<>>, "feat">>, << <<"feat">>, "enabled">>,
+             << <<"feat">>, "key">>, << <<"core">>, "x">>, << <<"core">>, "y">>, << <<>>, "core">>, << <<>>, "srv">>} |->
+        CASE pk = << <<>>, "name">> -> {s(<<"a", "p", "p">>), s(<<>>), NoneV}
+          [] pk = << <<>>, "port">> -> {IntV(8080), IntV(81)}
+          [] pk = << <<>>, "tags">> -> {ListV(<<s(<<"t", "1">>)>>), ListV(<<>>)}
+          [] pk = << <<>>, "opts">> -> {DictV(<<>>), D1(<<"q">>, IntV(2))}
+          [] pk = << <<>>, "feat">> -> {D1(<<"e", "n", "a", "b", "l", "e", "d">>, BoolV(TRUE)), D2(<<"e", "n", "a", "b", "l", "e", "d">>, BoolV(TRUE), <<"k", "e", "y">>, s(<<"k", "k">>)), D1(<<"k", "e", "y">>, s(<<"k", "k">>))}
+          [] pk = << <<"feat">>, "enabled">> -> {BoolV(TRUE), BoolV(FALSE), NoneV}
+          [] pk = << <<"feat">>, "key">> -> {s(<<"k", "k">>), NoneV}
+          [] pk = << <<"core">>, "x">> -> {IntV(1), IntV(9), NoneV}
+          [] pk = << <<"core">>, "y">> -> {IntV(0), IntV(7)}
+          [] pk = << <<>>, "core">> -> {D1(<<"x">>, IntV(1)), D1(<<"x">>, IntV(9)), D1(<<"y">>, IntV(7)), D2(<<"x">>, IntV(1), <<"d", "e", "e", "p">>, D1(<<"z">>, NoneV))}
+          [] pk = << <<>>, "srv">> -> {ListV(<<D1(<<"h", "o", "s", "t">>, s(<<"h", "1">>))>>), ListV(<<D1(<<"h", "o", "s", "t">>, s(<<"x">>))>>), ListV(<<D1(<<"p", "o", "r", "t">>, IntV(2))>>), ListV(<<>>)}]
+MCTreesV == {DictV(<<>>), TFull, D1(<<"n","a","m","e">>, s(<<"a", "p", "p">>)), TCore(IntV(1)), TCore(IntV(9)),
+             DictV(<< <<s(<<"n", "a", "m", "e">>), s(<<"a", "p", "p">>)>>, <<s(<<"t", "a", "g", "s">>), ListV(<<s(<<"t", "1">>)>>)>>, <<s(<<"c", "o", "r", "e">>), D1(<<"x">>, IntV(1))>>,
+                      <<s(<<"f", "e", "a", "t">>), D1(<<"e", "n", "a", "b", "l", "e", "d">>, BoolV(TRUE))>> >>),
+             DictV(<< <<s(<<"n", "a", "m", "e">>), s(<<"a", "p", "p">>)>>, <<s(<<"t", "a", "g", "s">>), ListV(<<s(<<"t", "1">>)>>)>>, <<s(<<"c", "o", "r", "e">>), D1(<<"x">>, IntV(1))>>,
+                      <<s(<<"f", "e", "a", "t">>), D2(<<"e", "n", "a", "b", "l", "e", "d">>, BoolV(TRUE), <<"k", "e", "y">>, s(<<"k", "k">>))>>, <<s(<<"s", "r", "v">>), ListV(<<D1(<<"h", "o", "s", "t">>, s(<<"h", "1">>))>>)>> >>),
+             DictV(<< <<s(<<"n", "a", "m", "e">>), s(<<"a", "p", "p">>)>>, <<s(<<"t", "a", "g", "s">>), ListV(<<s(<<"t", "1">>)>>)>>, <<s(<<"c", "o", "r", "e">>), D1(<<"x">>, IntV(1))>>,
+                      <<s(<<"s", "r", "v">>), ListV(<<D1(<<"h", "o", "s", "t">>, s(<<"x">>))>>)>> >>),
+             DictV(<< <<s(<<"n", "a", "m", "e">>), s(<<"a", "p", "p">>)>>, <<s(<<"t", "a", "g", "s">>), ListV(<<>>)>>, <<s(<<"c", "o", "r", "e">>), D1(<<"x">>, IntV(1))>> >>),
+             DictV(<< <<s(<<"n", "a", "m", "e">>), s(<<"a", "p", "p">>)>>, <<s(<<"t", "a", "g", "s">>), ListV(<<s(<<"t", "1">>)>>)>>, <<s(<<"c", "o", "r", "e">>), D1(<<"x">>, IntV(1))>>, <<s(<<"o", "p", "t", "s">>), DictV(<<>>)>> >>)}
+MCKwargsV == {<<>>, << <<"name", s(<<"a", "p", "p">>)>> >>, << <<"core", D1(<<"x">>, IntV(1))>> >>, << <<"core", D1(<<"x">>, IntV(9))>> >>}
+MCListOpsV ==
+    [pk \in {<< <<>>, "srv">>} |->
+        {[m |-> "append", v |-> D1(<<"h", "o", "s", "t">>, s(<<"h", "1">>))], [m |-> "append", v |-> D1(<<"h", "o", "s", "t">>, s(<<"x">>))],
+         [m |-> "append", v |-> D1(<<"p", "o", "r", "t">>, IntV(3))], [m |-> "item_set", i |-> 0, k |-> "host", v |-> NoneV],
+         [m |-> "item_set", i |-> 0, k |-> "host", v |-> s(<<"x">>)], [m |-> "pop"]}]
+MCDictOpsV == [pk \in {<< <<>>, "opts">>} |-> {[m |-> "clear"], [m |-> "setitem", k |-> s(<<"k", "k">>), v |-> IntV(3)]}]
 ====
